@@ -42,6 +42,8 @@ def main():
         sys.exit(registry.replay(args.prop, spec, args.replay))
     tier = args.tier
     n_cases = args.cases or spec["cases"][tier]
+    if args.cases:
+        os.environ["VERIF_ADHOC"] = "1"
     budget = float(os.environ.get("VERIF_BUDGET_S", spec["budget"][tier]))
     out = runner.run_batch(spec["module"], args.prop, tier, n_cases=n_cases, budget_s=budget, jobs=jobs,
                            base_seed=base_seed, chunk=spec.get("chunk", 8),
